@@ -381,6 +381,7 @@ def gen_json_case(rnd, spec):
             {"name": gen_text(rnd, 0, 12, 0.4, "name") or "m", "payload": mapping(0, 6), "created": rnd.uniform(0, 2**32 - 1)}
             for _ in range(rnd.randint(1, 4))
         ],
+        "nest": rnd.random() < 0.15,
     }
 
 
@@ -394,13 +395,42 @@ def exec_json(case, result):
         return [("constructing the formatter raised %r" % (err,), None)]
     problems = []
     keep_defaults = repr(defaults)
-    for idx, rec in enumerate(case["records"]):
+    nested_out = {}
+    records = []
+    for rec in case["records"]:
         payload = {k: v for k, v in rec["payload"]}
         record = logging.LogRecord("cobald.monitor", logging.INFO, __file__, 1, rec["name"], (payload,), None)
         record.created = rec["created"]
         record.msecs = (rec["created"] - int(rec["created"])) * 1000
+        records.append((rec, payload, record))
+    if case.get("nest") and len(records) >= 2 and records[0][1]:
+        # a report whose data is computed on demand - and computing it reports something else through the same formatter
+        # (what two handlers sharing one formatter, or a value that logs while it is read, amount to)
+        from collections.abc import Mapping
+
+        inner = records[1][2]
+
+        class Lazy(Mapping):
+            def __init__(self, data):
+                self.data = data
+
+            def __iter__(self):
+                return iter(self.data)
+
+            def __len__(self):
+                return len(self.data)
+
+            def __getitem__(self, key):
+                if 1 not in nested_out:
+                    nested_out[1] = None
+                    nested_out[1] = fmt.format(inner)
+                return self.data[key]
+
+        records[0][2].args = Lazy(records[0][1])
+        result.count("json_records_whose_data_reports_another_record_while_it_is_read")
+    for idx, (rec, payload, record) in enumerate(records):
         try:
-            out = fmt.format(record)
+            out = nested_out[idx] if nested_out.get(idx) is not None else fmt.format(record)
         except Exception as err:
             problems.append(("record %d: format raised %r" % (idx, err), None))
             continue
@@ -448,7 +478,7 @@ def run_shard(spec):
 
 
 def finish(total, tier):
-    for name in ("line_records", "line_formatters_with_non_dict_mapping_defaults", "line_records_with_tags", "line_records_with_special_chars", "line_records_with_timestamp", "line_records_with_container_tag_values",
+    for name in ("line_records", "json_records_whose_data_reports_another_record_while_it_is_read", "line_formatters_with_non_dict_mapping_defaults", "line_records_with_tags", "line_records_with_special_chars", "line_records_with_timestamp", "line_records_with_container_tag_values",
                  "json_records", "json_records_with_time", "json_records_without_time", "json_records_with_keys_that_are_not_strings"):
         if not total.counters.get(name) and not total.violations:
             total.inconc("monitor never observed: " + name)
